@@ -85,7 +85,7 @@ class World:
         self.l = self.mk(self.t, steal)
         self.steal = steal
         self.o = None
-        self.on = 0
+        self.written = set()      # every nonce one of our LockDirs wrote
         with ls.seam_off():
             if pre != "missing" or own_first:
                 os.makedirs(os.path.join(root, "lock"))
@@ -167,6 +167,8 @@ class World:
             fn()
         except _lock_errors() as e:
             raised = e
+        finally:
+            self.written.add(getattr(self.l, "nonce", None))
         fired = c is not None and len(c.fired_at) > before_fired
         return {"kind": kind, "raised": raised, "fired": fired,
                 "ours_before": ours_before}
@@ -193,6 +195,7 @@ class World:
                             o.force_break(info)
             except _lock_errors():
                 pass
+            self.written.add(getattr(o, "nonce", None))
 
 
 def op_steps(op):
@@ -252,9 +255,7 @@ def recover(root, how, ctx, w):
     if held is not None and held != w.pre_content:
         # the operation put this lock there: its info must be complete
         n = ls.parse_nonce(held)
-        writers = [getattr(x, "nonce", None) for x in (w.l, w.o)
-                   if x is not None]
-        check(n is not None and n in writers,
+        check(n is not None and n in w.written,
               "C27/held-with-unreadable-holder-info", [ctx, ls_b(held)])
     t = _t.get_transport(root)
     f = lockdir.LockDir(t, "lock")
